@@ -124,7 +124,8 @@ class Index:
         for match in matches:
             try:
                 compiled_matches.append(self.to_key(match) + separator)
-            except ValueError:
+            except (ValueError, OverflowError):
+                # a value no stored event can have (bad hex, integer outside 4 bytes)
                 pass
         if since is not None:
             since = since.to_bytes(4, "big")
